@@ -271,9 +271,9 @@ def mkQuad (t0 t1 : Tri) : Except Err (List V3) :=
 /-- `Quadrangle.get_common_point` -/
 def commonPoint (q q1 q2 : List V3) : Except Err V3 :=
   let c2 := commonPoints (commonPoints q q1) q2
-  if c2.length > 1 then .error .degenerate
+  if c2.length ≠ 1 then .error .degenerate   -- repair 70219c0: no common point is a documented rejection too
   else match c2 with
-    | [] => .error .index
+    | [] => .error .index                     -- `common_2[0]`, unreachable behind the guard
     | p :: _ => .ok p
 
 /-- The six quads in the order the code builds them. -/
